@@ -7,7 +7,27 @@ import sys
 from vp import core
 from vp.core import Obligation
 
-LEVEL_TEXT = "C19: memory safety + cursor progress of the tools' parsing units on arbitrary bytes."
+LEVEL_TEXT = ("C19: memory safety (CBMC pointer/bounds checks on the real code), absence of die()/abort, termination by strict cursor progress "
+              "and exit status 0/1 of the units through which ovniemu, ovnidump, ovnitop and ovnisort consume stream.obs / stream.json "
+              "bytes, for ALL byte values inside small size bounds.")
+
+MANIFEST = dict(
+    level_text=LEVEL_TEXT,
+    level_note=("Decomposed per unit, not one whole-program query: (a) load_obs/stream_step on every file of <=48 (64) bytes; (b) the real "
+                "emu_ev() + every handler that reads payload bytes (ovni, nosv, nanos6) on one arbitrary in-bounds event END-ALIGNED in a heap "
+                "object, with an independent decode of the event as second oracle; (c) ev_spec_compile + ev_spec_print on an arbitrary event "
+                "carrying a listed code, for one declaration per argument shape of each of the 8 models (all declarations in the thorough tier) "
+                "+ synthetic declarations for every argument type + all buffer lengths 0..24; (d) ovnisort: one execute_sort_plan from the state "
+                "stream_winsort is in at a closing marker, on <=48 (56) arbitrary bytes walked by the real stream_step, stream_check on <=48 (64) "
+                "bytes, whole stream_winsort on <=36 bytes (thorough); (e) main() of ovnidump/ovnitop/ovnisort with the library as symbolic-return "
+                "stubs (exit status 0/1, hex dump, ovnitop table); (f) ovni.mark metadata of arbitrary JSON types. Confirmed defects of the tree are "
+                "excluded by signature (-DKF_*; C19_NO_KF=1 shows them): pre_type of nosv/nanos6 reads past a short jumbo payload, ev_spec_print "
+                "never checks the payload size (NULL payload: SIGSEGV in ovnidump), ovnisort aborts on clocks >= 2^63 inside a sort region, "
+                "ovniemu -d dereferences the NULL payload of OHC. Outside: parson on JSON text, file-system errors, whole-program hangs beyond the "
+                "cursor argument, event handlers of the table-driven models (they never read payload bytes; C18), emulation work per event."),
+    technique=("CBMC 6.11 bounded symbolic execution of src/emu/{stream,emu_ev,ev_spec,ovnidump,ovnitop,ovnisort}.c, src/emu/{ovni,nosv,nanos6}/event.c, "
+               "src/emu/ovni/mark.c, src/rt/ovni.c; data END-ALIGNED in fixed-size heap objects so that CBMC's pointer checks are the over-read oracle; "
+               "unwinding assertions as termination proof; counterexamples replayed natively under ASan/UBSan"))
 
 UTHASH = ["stubs/uthash_model"]
 NATIVE_GC = ["-ffunction-sections", "-fdata-sections", "-Wl,--gc-sections", "-Wl,--unresolved-symbols=ignore-all", "-no-pie"]
@@ -29,7 +49,7 @@ TYPES = {"u8": 1, "u16": 2, "u32": 4, "u64": 8, "i8": 1, "i16": 2, "i32": 4, "i6
 SYNTH_DECLS = [("XAa(u8 a, i8 b, u16 c, i16 d, u32 e, i32 f)", "a=%{a} b=%{b} c=%{c} d=%{d} e=%{e} f=%{f}"),
                ("XAb(u64 g, i64 h)", "g=%{g} h=%{h} 100%%"),
                ("XAc+(u32 id, u16 k, str s)", "id=%{id} k=%{k} s='%{s}'"),
-               ("XAd(u16 x)", "only %5u{x} and %#x{x}")]
+               ("XAd(u16 x)", "only %5u{x} and %#x{x}.")]
 
 
 class EvlistError(Exception):
@@ -97,6 +117,12 @@ def ref_decl(sig, desc):
                 nrefs=len(refs), shape=(jumbo, tuple(types), tuple(fmts)))
 
 
+def sort_unwindset(k):
+    return ["%s.%d:%d" % (f, i, k) for f in ("find_min_clock", "count_events", "index_events", "write_events", "rebuild_ring", "ring_check",
+                                             "find_destination", "stream_winsort", "write_stream", "stream_check", "execute_sort_plan", "sort_buf")
+            for i in (0, 1, 2)]
+
+
 def obligations(tier, sc):
     obs = []
     mx, steps = (48, 4) if tier == "quick" else (64, 5)
@@ -113,7 +139,30 @@ def obligations(tier, sc):
                   oracle="independent tiler: accepted iff header ok; step result vs reference; all accesses inside the exact-size object; cursor strictly advances",
                   assumptions=["open/fstat/mmap/close stubs return the harness' exact-size object"])))
 
+    # Twin of the obligation above in which CBMC's whole-union lvalue strictness cannot fire: no jumbo-flagged byte has 4..15 bytes
+    # behind its would-be header, so `ev->payload.jumbo.size` is either fully backed (>= 16 bytes) or a REAL over-read (< 4 bytes).
+    # Without it a real over-read at that line can hide behind a benign counterexample of the same CBMC property (seen in the kill test).
+    obs.append(Obligation(
+        name="stream_truncated_jumbo_tail", harness="C19/stream.c",
+        defines=["MAXSZ=%d" % mx, "NSTEPS=%d" % steps, "NO_PARTIAL_JUMBO"],
+        srcs=["src/rt/ovni.c", "src/emu/path.c", "src/parson.c"],
+        unwind=mx + 2, timeout=900,
+        desc=dict(functions=["load_obs", "check_stream_header", "stream_step", "next_ev_size", "ovni_ev_size", "ovni_payload_size", "get_jumbo_payload_size"],
+                  symbolic="file size 0..%d, every byte of the file, clock offset, unsorted flag" % mx,
+                  bound="stream.obs of <=%d bytes, <=%d stream_step calls; no byte with the jumbo bit set at an offset that leaves 4..15 bytes behind a 12-byte header" % (mx, steps),
+                  out="the excluded byte patterns (covered by stream_arbitrary_bytes, where CBMC's strictness on partly backed unions is filtered by native replay)",
+                  oracle="as stream_arbitrary_bytes; here every CBMC pointer failure on the jumbo size word is a real read past the end of the file",
+                  assumptions=["open/fstat/mmap/close stubs return the harness' exact-size object"])))
+
     # ---- (1) payload-touching handlers through the real emu_ev()
+    ENV = ["leaf actions (chan_push/pop/set, task_*, body_*, thread_set_*, cpu_*, loom_get_cpu, proc/loom_find_thread) replaced by recorders that always "
+           "succeed and record their arguments (harness/C08/model_env.h); task_type_create's reading of the label is replaced by the oracle "
+           "'label is nil-terminated inside the jumbo data'",
+           "union chan_data modelled as a struct (harness/C08/model_env.h)"]
+    hfun = {"ovni": ["model_ovni_event", "pre_thread (incl. the OHC debug branch)", "pre_thread_execute", "pre_affinity", "pre_affinity_set", "pre_affinity_remote",
+                     "pre_cpu", "pre_burst", "pre_flush", "the OU path", "mark_event + find_mark_type (src/emu/ovni/mark.c)"],
+            "nosv": ["model_nosv_event", "process_ev", "pre_task", "update_task", "update_task_state", "create_task", "pre_type (src/emu/nosv/event.c)"],
+            "nanos6": ["model_nanos6_event", "process_ev", "pre_task", "update_task", "update_task_state", "create_task", "pre_type (src/emu/nanos6/event.c)"]}
     for m in ("ovni", "nosv", "nanos6"):
         guards = kf("KF_OHC_DEBUG") if m == "ovni" else kf("KF_D5_PRETYPE")
         for slack in (0, 16):
@@ -121,40 +170,108 @@ def obligations(tier, sc):
                 name="H_payload_%s_%s" % (m, "endaligned" if slack == 0 else "slack"), harness="C19/handler.c",
                 defines=["M_%s" % m, "SLACK=%d" % slack] + guards,
                 srcs=["src/rt/ovni.c"], incdirs=UTHASH, unwind=40, timeout=900, native_cflags=NATIVE_GC,
-                desc=dict(functions=["emu_ev", "ovni_payload_size", "model_%s_event and everything below it (src/emu/%s/event.c)" % (m, m)],
-                          symbolic="", bound="", out="", oracle="", assumptions=[])))
+                desc=dict(functions=["emu_ev (src/emu/emu_ev.c)", "ovni_payload_size (src/rt/ovni.c)"] + hfun[m],
+                          symbolic="one event: flags byte (all 8 bits), model byte, %s, clock, payload of the announced length (0 or 2..16 bytes; jumbo: "
+                                   "32-bit size 0..8 + data), every payload byte; is_jumbo left in the reused struct emu_ev by the previous event; thread "
+                                   "flags and state, debug mode (ovniemu -d), mark type, burst count 0..97, task context%s" % (
+                                       "category and value byte (all 65536)" if m == "ovni" else "category 'T' or 'Y', value byte (all 256)",
+                                       "; 16 arbitrary bytes BEHIND the event in the same heap object" if slack else ""),
+                          bound="one event of <= 28 bytes; jumbo data <= 8 bytes; " + (
+                              "event END-ALIGNED in the heap object: a read past its last byte is out of object" if not slack else
+                              "16 slack bytes behind the event: CBMC's whole-union lvalue check (`payload->i32[k]` needs all 16 bytes of the union) does not "
+                              "fire, so every built-in check below the handler is decided; over-reads are caught by the decode oracle"),
+                          out="categories of nosv/nanos6 other than T/Y (table dispatch, no payload read: C18); the 100th burst (statistics over thread state); "
+                              "what the leaf actions do with their arguments (C04-C08)",
+                          oracle="CBMC pointer checks on the real code; independent little-endian decode of the event from the documented signatures: a "
+                                 "leaf action is reached only with arguments that lie inside the payload (short payload => rejected, not read); a task "
+                                 "type is created only from a jumbo event whose data holds the id and a nil-terminated label; no die(); return 0 or -1",
+                          assumptions=ENV + ([("known finding excluded (-DKF_OHC_DEBUG): debug mode and OHC with fewer than 12 payload bytes" if m == "ovni" else
+                                               "known finding excluded (-DKF_D5_PRETYPE): jumbo Yc whose data is shorter than 5 bytes or whose label has no nil inside the data")]
+                                             if not NO_KF else []))))
 
     # ---- (3) ovnisort on arbitrary bytes
     sort_srcs = ["src/rt/ovni.c", "src/emu/stream.c", "src/emu/path.c", "src/parson.c"]
+    SORT_ENV = ["open/close/fdatasync succeed; pwrite copies into the mapping (the mapping is the file) and is asserted to stay inside the file and below the closing marker",
+                "malloc(n)/calloc(n, 8) of ovnisort.c return END-ALIGNED regions of fixed-size heap objects (requests asserted to be > 0 and <= file size / event count); free is a no-op",
+                "qsort: typed stable insertion sort calling the real cmp_ev",
+                "struct stream is put in the state load_obs() leaves behind the 8-byte header (header: stream_arbitrary_bytes)"]
+    sort_fun = ["stream_step", "next_ev_size", "stream_evclock (src/emu/stream.c)", "ovni_ev_size", "ovni_payload_size", "ovni_ev_get_clock (src/rt/ovni.c)"]
 
-    def sort_unwindset(k):
-        return ["%s.%d:%d" % (f, i, k) for f in ("find_min_clock", "count_events", "index_events", "write_events", "rebuild_ring", "ring_check",
-                                                 "find_destination", "stream_winsort", "write_stream", "stream_check", "execute_sort_plan", "sort_buf")
-                for i in (0, 1, 2)]
-
-    def sort_ob(name, mx, defs, **kw):
+    def sort_ob(name, mx, defs, desc, **kw):
         return Obligation(name=name, harness="C19/sort.c", defines=["MAXSZ=%d" % mx] + defs, srcs=sort_srcs,
-                          unwind=mx + 2, unwindset=sort_unwindset(mx // 12 + 2), timeout=1500, native_cflags=NATIVE_GC,
-                          desc=dict(functions=[], symbolic="", bound="", out="", oracle="", assumptions=[]), **kw)
+                          unwind=mx + 2, unwindset=sort_unwindset(mx // 12 + 2), timeout=1500, native_cflags=NATIVE_GC, desc=desc, **kw)
 
-    # one sort plan from the state stream_winsort() is in at a closing marker: (first region event, closing marker, look-back size)
+    kf_sort = ["known finding excluded (-DKF_SORT_CLOCK63): an event clock >= 2^63 (cmp_ev compares as int64_t, ring_check/find_destination as uint64_t: die())"] if not NO_KF else []
+    # one sort plan from the state stream_winsort() is in at a closing marker: (bytes, first region event, closing marker, look-back size)
     plans = [(40, 1, 2, 6), (48, 1, 3, 6), (48, 2, 3, 2)] if tier == "quick" else \
             [(48, 1, 2, 6), (48, 1, 3, 6), (48, 2, 3, 2), (48, 2, 3, 6), (48, 1, 3, 2), (56, 1, 3, 6), (56, 2, 3, 3)]
     for mx, a, b, rs in plans:
         wit = (["W_SORTED"] if rs >= b + 2 else []) + (["W_CANNOT"] if rs <= 2 else [])
         obs.append(sort_ob("S_sortplan_%d_a%d_b%d_r%d" % (mx, a, b, rs), mx,
-                           ["PLANMODE", "PA=%d" % a, "PB=%d" % b, "RSIZE=%d" % rs] + wit + kf("KF_SORT_CLOCK63")))
-    obs.append(sort_ob("S_ovnisort_check", 48 if tier == "quick" else 64, ["CHECKMODE"]))
+                           ["PLANMODE", "PA=%d" % a, "PB=%d" % b, "RSIZE=%d" % rs] + wit + kf("KF_SORT_CLOCK63"),
+                           dict(functions=["execute_sort_plan", "find_min_clock", "find_destination", "sort_buf", "count_events", "index_events", "write_events", "cmp_ev",
+                                           "write_stream", "rebuild_ring", "ring_check", "ring_add", "ring_reset", "starts/ends_unsorted_region (src/emu/ovnisort.c)"] + sort_fun,
+                                symbolic="size 0..%d and every byte of the event area (flags, sizes, jumbo size words, clocks, payloads): event boundaries are symbolic" % mx,
+                                bound="<= %d bytes END-ALIGNED in a heap object; events e[0..%d] accepted by the real stream_step, e[%d] = OU[, region e[%d..%d], e[%d] = OU] "
+                                      "(the state of stream_winsort at the closing marker); look-back ring of %d slots (END-ALIGNED)" % (mx, b, a - 1, a, b - 1, b, rs),
+                                out="regions of more than %d events; the marker state machine of stream_winsort (S_ovnisort_winsort in the thorough tier, C16); short pwrite (C16)" % (b - a),
+                                oracle="CBMC pointer checks: every read stays inside [first, next) / the file, every write inside the scratch buffers, the event table and the "
+                                       "ring; unwinding assertions: every walk terminates within the number of events that fit (cursor strictly advances, sizes are positive); "
+                                       "malloc/calloc requests positive and bounded; no die(); return 0 or -1; file size unchanged",
+                                assumptions=SORT_ENV + kf_sort)))
+    cmx = 48 if tier == "quick" else 64
+    obs.append(sort_ob("S_ovnisort_check", cmx, ["CHECKMODE"],
+                       dict(functions=["stream_check (src/emu/ovnisort.c)"] + sort_fun,
+                            symbolic="size 0..%d and every byte of the event area" % cmx, bound="<= %d bytes, <= %d events" % (cmx, cmx // 12),
+                            out="clocks >= 2^63 (stream_step computes clock - lastclock in int64_t: formal signed overflow, no crash)",
+                            oracle="CBMC pointer checks; loop terminates within the number of events that fit; return 0 or -1; no die()",
+                            assumptions=SORT_ENV[3:] + ["all clocks < 2^63"])))
     if tier == "thorough":
-        obs.append(sort_ob("S_ovnisort_winsort", 36, kf("KF_SORT_CLOCK63")))
+        obs.append(sort_ob("S_ovnisort_winsort", 36, kf("KF_SORT_CLOCK63"),
+                           dict(functions=["stream_winsort and everything below it (src/emu/ovnisort.c)"] + sort_fun,
+                                symbolic="size 0..36 and every byte of the event area, look-back size 1..6", bound="<= 36 bytes (3 events)",
+                                out="longer streams (do not finish: three inlined sort plans with symbolic event boundaries)",
+                                oracle="as S_sortplan, plus the marker state machine; cursor ends inside the stream",
+                                assumptions=SORT_ENV + kf_sort)))
 
     # ---- (4)+(5) the tools' own files: main() exit status, ovnidump emit (hex dump), ovnitop accum/report
+    mfun = {"dump": ["main", "parse_args", "usage", "emit (src/emu/ovnidump.c)", "emu_ev"],
+            "top": ["main", "parse_args", "usage", "accum", "by_count", "report (src/emu/ovnitop.c)", "emu_ev"],
+            "sort": ["main", "parse_args", "usage", "process_trace", "stream_winsort / stream_check loop skeleton (src/emu/ovnisort.c)"]}
     for tool, extra_defs, info in (("dump", ["JMAX=16"], False), ("top", [], False), ("sort", [], False), ("dump", ["REGISTER_MAY_FAIL"], True)):
         obs.append(Obligation(
             name="M_main_ovni%s%s" % (tool, "_register_fails" if info else ""), harness="C19/mains.c", defines=["TOOL_%s" % tool] + extra_defs,
             srcs=["src/rt/ovni.c"], incdirs=UTHASH, unwind=34, timeout=900, native_cflags=NATIVE_GC, info_only=info,
-            unwindset=(["stream_winsort.0:2", "stream_winsort.1:2", "stream_winsort.2:2", "stream_check.0:2", "process_trace.0:3"] if tool == "sort" else []), witness=not info,
-            desc=dict(functions=[], symbolic="", bound="", out="", oracle="", assumptions=[])))
+            unwindset=(sort_unwindset(2) + ["process_trace.0:3"] if tool == "sort" else []), witness=not info,
+            desc=dict(functions=mfun[tool],
+                      symbolic="getopt results (<= 2 options, known or unknown), directory argument present or not, results of trace_load / player_init "
+                               "(0 or -1), of <= 2 player_step calls (-1, 0, +1), of model_event_print; each stepped event: arbitrary in-bounds bytes "
+                               "(flags, code, clock, payload 0..16 bytes, jumbo data 0..%d) through the real emu_ev" % (16 if tool == "dump" else 8),
+                      bound="<= 2 options, <= 2 events", out="ovnisort -n (sizes a malloc from the command line); the library below main (other obligations / properties)",
+                      oracle=("informational: with models_register() failing ovnidump returns -1 (exit status 255)" if info else
+                              "main returns 0 or 1, exit() only with 0 or 1, status 1 only after a diagnostic; CBMC pointer checks (hex dump reads "
+                              "[payload, payload+size); ovnitop entries hold 3 code bytes + nil); ovnitop counts every event exactly once and frees its table; no die()"),
+                      assumptions=["library calls below main are stubs with symbolic results (see harness header)", "uthash list model (ovnitop)"] +
+                                  (["models_register() succeeds (static model list; failure is not reachable from trace bytes)"] if tool == "dump" and not info else []))))
+
+    # ---- (6) metadata of arbitrary types
+    # (entries, labels, type-key spellings, label-key spellings, chan_type texts): see harness/C19/meta_mark.c
+    mark_cfgs = [(2, 2, (0, 1), (0, 1), (0, 1)), (2, 2, (0, 6), (0, 3), (1, 2)), (2, 2, (3, 5), (2, 4), (0, 0)), (1, 0, (4, 0), (0, 1), (1, 0))]
+    if tier == "thorough":
+        mark_cfgs += [(2, 2, (4, 2), (1, 0), (1, 0)), (2, 1, (7, 0), (4, 0), (2, 1)), (0, 0, (0, 1), (0, 1), (0, 1))]
+    for n, (ne, nl, ek, vk, ct) in enumerate(mark_cfgs):
+        obs.append(Obligation(
+            name="J_meta_mark_types_%d" % n, harness="C19/meta_mark.c",
+            defines=["NENT=%d" % ne, "NLAB=%d" % nl, "EK0=%d" % ek[0], "EK1=%d" % ek[1], "VK0=%d" % vk[0], "VK1=%d" % vk[1], "CT0=%d" % ct[0], "CT1=%d" % ct[1]] +
+                    (["W_ACCEPT2"] if n == 0 else []) + (["W_ENTRY"] if ne > 0 else []) + (["W_LABELS"] if ne > 0 and nl > 0 else []),
+            incdirs=UTHASH, unwind=26, timeout=900, native_cflags=NATIVE_GC,
+            desc=dict(functions=["scan_thread", "parse_mark", "parse_labels", "parse_number", "add_label", "find_label", "create_mark_type", "find_mark_type (src/emu/ovni/mark.c)"],
+                      symbolic="presence and JSON type (object/array/number/string/boolean/null) of ovni.mark, of each mark entry, of its title / chan_type / labels and of each label value",
+                      bound="%d mark entries with %d labels each; spellings fixed per query: type keys %s, label keys %s, chan_type texts %s (indices into the tables of the harness: "
+                            "valid, out of range, negative, leading blank, non-number, overflowing, empty)" % (ne, nl, ek, vk, ct),
+                      out="parson on JSON text; more entries; duplicate keys; loom/proc/thread attributes of arbitrary types are C15's ILL obligations",
+                      oracle="CBMC pointer checks; no die(); scan_thread returns 0 or -1, and 0 only if every present entry is well formed (independent reading of doc/user/runtime/mark.md)",
+                      assumptions=["parson getters replaced by the ghost document model stubs/vjson.h", "uthash list model", "strtol/strtoll/snprintf: stubs/libc_model.h"])))
 
     # ---- (2) ovnidump's decoder on an arbitrary event carrying a listed code
     try:
@@ -164,7 +281,7 @@ def obligations(tier, sc):
         sc.cleanup()
         sys.exit(2)
 
-    def evspec_ob(name, m, idx, decls, extra_defs=()):
+    def evspec_ob(name, m, idx, decls, extra_defs=(), what=None):
         wd = []
         if any(d["nrefs"] and d["stroff"] < 0 for d in decls):
             wd.append("W_ARGS")
@@ -173,15 +290,27 @@ def obligations(tier, sc):
         if any(d["nrefs"] == 0 for d in decls):
             wd.append("W_NOARG")
         lst = lambda key: ",".join(str(d[key]) for d in decls)
+        small = any(x.startswith("SMALLBUF") for x in extra_defs)
         return Obligation(
             name=name, harness="C19/evspec.c",
             defines=["M_%s" % m, "EV_IDX=" + ",".join(str(i) for i in idx), "EV_PSIZE=" + lst("psize"), "EV_NEED=" + lst("need"),
                      "EV_JUMBO=" + lst("jumbo"), "EV_STROFF=" + lst("stroff")] + wd + list(extra_defs) + kf("KF_D5_EVSPEC"),
             srcs=["src/rt/ovni.c"], incdirs=UTHASH, unwind=300, timeout=1500, native_cflags=NATIVE_GC,
             extra=["--object-bits", "12", "--max-field-sensitivity-array-size", "256"],
-            desc=dict(functions=["ev_spec_compile", "parse_signature", "parse_args", "parse_arg", "parse_type", "emu_ev", "ovni_payload_size",
-                                 "ev_spec_print", "format_region", "parse_printf_format", "parse_arg_name", "ev_spec_find_arg", "print_arg"],
-                      symbolic="", bound="", out="", oracle="", assumptions=[]))
+            desc=dict(functions=["ev_spec_compile", "parse_signature", "parse_args", "parse_arg", "parse_type", "ev_spec_print", "format_region",
+                                 "parse_printf_format", "parse_arg_name", "ev_spec_find_arg", "print_arg (src/emu/ev_spec.c)", "emu_ev", "ovni_payload_size"],
+                      symbolic="declaration selector; one event with the code of the declaration: flags byte (all 8 bits), clock, payload of the announced length (0 or 2..16 bytes; "
+                               "jumbo: size 0..8 + data), every byte" + ("; buffer length 0..24 and length 1..6 of every formatted number (all pairs, case split)" if small else ""),
+                      bound=what or ("declarations %s of the real evlist of model %s (%s)" % (idx, m, "one per argument shape" if tier == "quick" else "slice of all")),
+                      out="the lookup by MCV (model_evspec_find: C18); number formatting by libc (any length 1 is assumed for a number, except in the smallbuf query); "
+                          "declarations whose argument types/formats differ from the visited ones (quick tier)",
+                      oracle="CBMC pointer checks with the event END-ALIGNED in a heap object (print_arg reads through a byte pointer: byte-exact) and payload == NULL for "
+                             "an event without payload; snprintf shadow asserts its window lies inside the caller's buffer and walks a %s argument to its nil; on success "
+                             "the text is nil-terminated inside the buffer, the payload covers the arguments the description prints and a string is nil-terminated inside "
+                             "the payload; return 0 or -1" + ("; canaries around the caller's buffer untouched" if small else ""),
+                      assumptions=["reference parse of the signature/description in Python (checks/C19.py) gives the declared payload size and string offset",
+                                   "strtok_r/isgraph/isalnum: stubs/libc_model.h"] +
+                                  (["known finding excluded (-DKF_D5_EVSPEC): declared arguments and (payload shorter than the declared size or string without nil inside the payload)"] if not NO_KF else [])))
 
     for m in MODELS:
         decls = evl[m]
@@ -199,6 +328,8 @@ def obligations(tier, sc):
                 obs.append(evspec_ob("E_evspec_%s_%03d_%03d" % (m, idx[0], idx[-1]), m, idx, [decls[i] for i in idx]))
     # every argument type + the decoder's room bookkeeping (synthetic declarations, see harness)
     synth = [ref_decl(sg, d) for sg, d in SYNTH_DECLS]
-    obs.append(evspec_ob("E_evspec_synth_all_types", "kernel", list(range(len(synth))), synth, ["SYNTH"]))
-    obs.append(evspec_ob("E_evspec_synth_smallbuf", "kernel", [3], [synth[3]], ["SYNTH", "SMALLBUF=24", "NUMLEN_MAX=6"]))
+    obs.append(evspec_ob("E_evspec_synth_all_types", "kernel", list(range(len(synth))), synth, ["SYNTH"],
+                         what="4 synthetic declarations covering u8 i8 u16 i16 u32 i32 u64 i64 str, %%, custom printf formats"))
+    obs.append(evspec_ob("E_evspec_synth_smallbuf", "kernel", [3], [synth[3]], ["SYNTH", "SMALLBUF=24", "NUMLEN_MAX=6"],
+                         what="synthetic declaration XAd(u16 x) 'only %5u{x} and %#x{x}.' (text ends with a literal: exact fill is reachable) into every buffer length 0..24"))
     return obs
